@@ -75,6 +75,13 @@ def r1_agreement(rep, ctx):
                 kinds[kind] = pos if kinds.get(kind, pos) == pos else None
 
     for r in own_nodes(cv.node):
+        if isinstance(r, ast.Return) and r.value is not None and not isinstance(r.value, ast.Call):
+            # a list built by a comprehension and returned as it is
+            v_ = r.value
+            srcs = [v_] if isinstance(v_, ast.ListComp) else [getattr(st_, "value", None) for st_, _t in cres.origins(v_)] if isinstance(v_, ast.Name) else []
+            if srcs and all(isinstance(x_, ast.ListComp) for x_ in srcs):
+                under(r, "list")
+            continue
         if not (isinstance(r, ast.Return) and isinstance(r.value, ast.Call) and isinstance(r.value.func, ast.Name)):
             continue
         f = r.value.func
